@@ -428,6 +428,7 @@ size_t jv_pair_size(int view, int prepared) {
 }
 /* What declaring the array does in each language: a C++ caller's records are default-constructed objects (a no-op today; it runs
    default member initialisers if the type ever gets any), a C caller's records are raw memory with whatever it held before. */
+size_t jv_g2p_size(int view) { return view == 0 ? sizeof(embedded_pairing_bls12_381_g2prepared_t) : sizeof(G2Prepared); }
 void jv_pair_init(int view, void* arr, size_t n, int prepared) {
     if (view == 0) return;
     if (prepared) { bls::PreparedPair* a = static_cast<bls::PreparedPair*>(arr); for (size_t i = 0; i < n; i++) new (&a[i]) bls::PreparedPair; }
